@@ -121,6 +121,8 @@ def pmap(fn, cases, ctx, section=None, horizon=120, chunksize=None, pid=None, co
                     pool.terminate()
                     ctx.cap("aborted after %d violation records (the property is already refuted; remaining cells not explored)" % len(ctx.violations))
                     break
+            else:
+                pool.close(); pool.join()       # workers leave through their normal exit path (the coverage diagnostic collects their data there)
         return out
     cases = rotate(cases, ctx.seed)
     _FN, _HOR, _PID = fn, horizon, (pid or ctx.pid)
@@ -139,4 +141,6 @@ def pmap(fn, cases, ctx, section=None, horizon=120, chunksize=None, pid=None, co
                 pool.terminate()
                 ctx.cap("aborted after %d violation records (the property is already refuted; remaining cells not explored)" % len(ctx.violations))
                 break
+        else:
+            pool.close(); pool.join()
     return len(cases)
